@@ -154,7 +154,9 @@ func (j *jsonWriter) ByteString(tag int, str []byte) {
 func (j *jsonWriter) DateTime(tag int, date time.Time) {
 	j.encodeAppend(TypeDateTime, tag, func(b []byte) []byte {
 		b = append(b, '"')
-		b = date.AppendFormat(b, time.RFC3339)
+		// Always in UTC: in the value's own location, an instant of year 9999 (or 0) may
+		// need a five-digit (or negative) year, which RFC 3339 cannot express.
+		b = date.UTC().AppendFormat(b, time.RFC3339)
 		return append(b, '"')
 	})
 }
